@@ -95,6 +95,25 @@ CLAIMS = {
             "shipped version + max_root_updates. Unbounded recursion over delegation cycles is a recorded "
             "finding (D3). Wall-clock termination is not decided.",
             "DESIGN.md §4 C09"),
+    "C06": ("MIR value-origin / must-pass-through + file-name template analysis of read_target, "
+            "fetch_target, target_digest_and_filename; who-may-read query for targets_base_url; shared "
+            "adapter rules (io.rs) and who-may-fetch rule",
+            "Decides on every path that the stream handed to the caller is fetch_sha256(targets_base_url"
+            ".join(file), entry.length, entry.hashes.sha256) for the entry returned by find_target(name) "
+            "on the trusted targets, that the digest-prefixed name is used exactly under consistent "
+            "snapshots, that no other code reads targets_base_url, and that the adapters pass a chunk "
+            "only while the running size <= bound and end the stream only on digest equality. "
+            "Chunking behaviour at run time and SHA-256 are not decided.",
+            "DESIGN.md §4 C06"),
+    "C16": ("taint / file-name template analysis (interprocedural expansion through callee return values "
+            "and parameters at all call sites) over every file-name sink; compiler-evaluated constant "
+            "CHARACTERS_TO_ESCAPE; who-may-call query for URL-to-path decoding; template-language overlap",
+            "Decides for every sink (metadata URL, datastore, cache output, editor output) that file names "
+            "are built only from literals, version numbers and encode_filename(role name); that the "
+            "escape set contains every path-significant character and '%'; that file URLs are not "
+            "percent-decoded. Name-space disjointness per directory FAILS today for suitably named "
+            "delegated roles (recorded finding D9, one key per directory/mode).",
+            "DESIGN.md §4 C16"),
 }
 
 NOT_YET = {}
